@@ -748,6 +748,27 @@ def returned_table(ctx, rule='TABLE'):
         want = [(d['prop_name'], d['table_name'], d['shape'], d['unit']) for d in PI]
         ctx.ob(rule, loc, '%s positions: the returned conversion table names the written columns with their shapes and units%s' % (tag, ' (box-relative columns are still marked scaled)' if punit == 'scaled' else ''),
                bool(ok) and got == want, 'returned %s' % (got,), node=fn, key='returned table ' + tag)
+    # the dump-file writer hands its resolved conversion table to table_dump and returns that very table: table_dump must leave it as it was (a box-relative column stays 'scaled')
+    tfn = ctx.fn(DD, 'table_dump')
+    for tag, pname, punit in (('box-relative positions under the name pos', 'pos', 'scaled'), ('the scaled alternate column spos', 'spos', 'scaled'), ('cartesian', 'pos', UL)):
+        PI = [{'prop_name': 'atom_id', 'table_name': ['id'], 'shape': (), 'unit': None, 'dtype': None},
+              {'prop_name': 'atype', 'table_name': ['type'], 'shape': (), 'unit': None, 'dtype': None},
+              {'prop_name': pname, 'table_name': ['xs', 'ys', 'zs'] if punit == 'scaled' else ['x', 'y', 'z'], 'shape': (3,), 'unit': punit, 'dtype': None}]
+        given = [dict(d) for d in PI]
+        try:
+            _run_table(ctx, DD, 'table_dump', given, TabSys(own_id=False))
+        except WouldRaise as e:
+            ctx.ob(rule, DD + '::table_dump', '%s: the writer runs to completion' % tag, False, str(e), node=tfn, key='dump table kept runs ' + tag)
+            continue
+        except Opaque as e:
+            raise AnalysisError('%s::table_dump (conversion table kept, %s): %s' % (DD, tag, e))
+        ctx.ob(rule, DD + '::table_dump', '%s: the conversion table handed in (the one atom_dump.dump returns on request) still describes the columns as written -- names, shapes and units, box-relative columns still marked scaled' % tag,
+               given == PI, 'left as %s' % ([(d.get('prop_name'), d.get('unit')) for d in given],), node=tfn, key='dump table kept ' + tag)
+    dfn = ctx.fn(DD, 'dump')
+    rets = [c for c in ast.walk(dfn) if isinstance(c, ast.Call) and isinstance(c.func, ast.Attribute) and c.func.attr == 'append' and norm(c.func.value) == 'returns' and c.args]
+    handed = [norm(kwarg(c, 'prop_info')) for c in calls_in(dfn) if norm(c.func) == 'table_dump' and kwarg(c, 'prop_info') is not None]
+    ctx.ob(rule, DD + '::dump', 'the conversion table returned on request is the one the column writer was given', bool(handed) and any(norm(c.args[0]) == handed[0] for c in rets), 'handed %s, returned %s' % (handed, [norm(c.args[0]) for c in rets]),
+           node=dfn, key='dump table identity')
 
 
 def resolvers(ctx):
